@@ -94,9 +94,21 @@ def _random_unit(vc, name):
             vc.values[name + "." + k] = Fraction(c)
 
 
+def _concrete(vc, build):
+    """concrete mode (replay, random search, bounded): operands are built by the REAL constructors, so that they carry whatever
+    cached state the current code gives them; an input the constructor rejects is outside the precondition"""
+    from g3dvc.engine import PreconditionFailed
+    try:
+        return build()
+    except Exception as e:
+        raise PreconditionFailed("constructor rejected the input: %r" % (e,))
+
+
 def line(vc, name):
     """a valid Line: direction not zero (invariant established by Line.__init__, C15)"""
     g = G()
+    if not vc.symbolic:
+        return _concrete(vc, lambda: g.Line(g.Point(*SP.vec(V(vc, name + ".sv"))), V(vc, name + ".dv")))
     l = g.Line.__new__(g.Line)
     l.sv = V(vc, name + ".sv")
     l.dv = V(vc, name + ".dv")
@@ -108,6 +120,10 @@ def line(vc, name):
 def plane(vc, name):
     """a valid Plane: unit normal (invariant established by Plane._init_pn, C17)"""
     g = G()
+    if not vc.symbolic:
+        pt = P(vc, name + ".p")
+        _random_unit(vc, name + ".n")
+        return _concrete(vc, lambda: g.Plane(pt, V(vc, name + ".n")))
     p = g.Plane.__new__(g.Plane)
     p.p = P(vc, name + ".p")
     _random_unit(vc, name + ".n")
@@ -120,6 +136,8 @@ def plane(vc, name):
 def segment(vc, name):
     """a valid Segment: end points differ, cached carrier line = Line(start, end)"""
     g = G()
+    if not vc.symbolic:
+        return _concrete(vc, lambda: g.Segment(P(vc, name + ".a"), P(vc, name + ".b")))
     s = g.Segment.__new__(g.Segment)
     s.start_point = P(vc, name + ".a")
     s.end_point = P(vc, name + ".b")
@@ -136,6 +154,8 @@ def segment(vc, name):
 def halfline(vc, name):
     """a valid HalfLine: vector not zero, cached carrier line = Line(point, vector)"""
     g = G()
+    if not vc.symbolic:
+        return _concrete(vc, lambda: g.HalfLine(P(vc, name + ".p"), V(vc, name + ".v")))
     h = g.HalfLine.__new__(g.HalfLine)
     h.point = P(vc, name + ".p")
     h.vector = V(vc, name + ".v")
@@ -537,6 +557,14 @@ def polygon(vc, name, n, convex=True):
     counter-clockwise about the normal stated for ALL edge/vertex pairs, centre = vertex mean"""
     g = G()
     _random_polygon(vc, name, n)
+    if not vc.symbolic:
+        pts_c = [P(vc, "%s.p%d" % (name, i)) for i in range(n)]
+        nv_c = SP.vec(V(vc, name + ".n"))
+        _ = [vc.real(name + ".plane_p." + k) for k in "xyz"]
+        pg_c = _concrete(vc, lambda: g.ConvexPolygon(tuple(pts_c)))
+        if SP.dot(SP.vec(pg_c.plane.n), nv_c) < 0:  # keep the orientation the inputs describe (counter-clockwise about the given normal)
+            pg_c = _concrete(vc, lambda: -pg_c)
+        return pg_c
     pg = g.ConvexPolygon.__new__(g.ConvexPolygon)
     pts = [P(vc, "%s.p%d" % (name, i)) for i in range(n)]
     pl = g.Plane.__new__(g.Plane)
